@@ -802,6 +802,19 @@ def check_purge_first(res, prop, cm, roles, m, top):
                 if not seen_q:
                     ok = True
                 break
+    if not ok and first_purge is None:
+        # nothing to purge: before it touched the index the path established that the head of the (deadline-ordered) ttl list is
+        # still alive - `if (m_ttl_list.empty() || now < m_ttl_list.front().m_expire_time) return 0;` at the top of the purge
+        for pos, (k, i) in enumerate(top.order):
+            if first_touch is not None and pos >= first_touch:
+                break
+            if k == 'cond' and top.conds[i][0] == 'EXPIRED' and top.conds[i][2] is False and isinstance(top.conds[i][1][0], Ent) \
+                    and top.conds[i][1][0].kind in ('AUXHEAD', 'AUXHEADNODE', 'FRONT') and (top.conds[i][1][0].epoch or 0) == 0:
+                seen_q = q_before is not None and top.events.index(q_before) < next((j for j, e in enumerate(top.events)
+                                                                                      if e[0] == 'cond' and e[1] == top.conds[i][4]), 10 ** 9)
+                if not seen_q:
+                    ok = True
+                break
     if not ok and first_purge is None and q_before is None:
         # two-pass purge, first pass found nothing: a scan loop walked the expired prefix and the path established that its
         # boundary is still the head of the ttl list (no expired node), before the index was touched
